@@ -406,8 +406,12 @@ MGR_CONTRACTS = [
                 ("previous-attempt-stopped-before-the-next-is-built",
                  "not old(in_state(self, 'CONNECTING')) or (bcalls('stop') == 1 and bcall_recv('stop', 0) is old(self._connector) "
                  "and bcall_index('stop', 0) < bcall_index('Connector', 0))"),
+                ("reconnecting-is-answered-before-the-new-generation-can-announce-its-hints",
+                 "old(in_state(self, 'CONNECTED')) or bcall_index('send', 0) < bcall_index('start', 0)"),
                 ("generation-counts-messages", "self._next_dilation_generation == old(self._next_dilation_generation) + bcalls('send')")],
-               requires=M_ENV),
+               requires=M_ENV,
+               note="Connector.start() publishes this side's connection hints; the Leader accepts hints only once it has seen "
+                    "`reconnecting` (it ignores them as stale while FLUSHING), so the answer must be on the wire before start()"),
     m_contract("rx_RECONNECTING", {}, {"NoTransition": "not in_state(self, 'FLUSHING')"},
                [("leader-starts-the-new-generation-only-after-the-follower-answered", f"in_state(self, 'CONNECTING') and {NEW_GENERATION}"),
                 ("nothing-sent", "bcalls('send') == 0")], requires=M_ENV),
@@ -448,7 +452,8 @@ MGR_CONTRACTS = [
                        f"bcalls('send') == 0 and {NO_NEW_GENERATION})"),
                       ("abandoning-follower-answers-and-starts-the-new-generation",
                        "not old(in_state(self, 'ABANDONING')) or (in_state(self, 'CONNECTING') and bcalls('send') == 1 and "
-                       f"sent_type(0) == 'reconnecting' and {NEW_GENERATION})"),
+                       f"sent_type(0) == 'reconnecting' and {NEW_GENERATION} and "
+                       "bcall_index('send', 0) < bcall_index('start', 0))"),
                       ("stopping-finishes", "not old(in_state(self, 'STOPPING')) or (in_state(self, 'STOPPED') and bcalls('fire') == 1 "
                                             f"and bcalls('send') == 0 and {NO_NEW_GENERATION})"),
                       ("generation-counts-messages", "self._next_dilation_generation == old(self._next_dilation_generation) + bcalls('send')"),
